@@ -26,7 +26,7 @@ func init() {
 		Level: "exploration",
 		Rule: "exhaustive enumeration of byte strings (all strings up to length L over all 256 values; all strings up to length M over a 12-byte alphabet of opcodes/widths/letters; every truncation and every single-byte substitution of every program of a pool) fed to ParseAll, ToString and Vm.Run, " +
 			"each in three presentations (exact-capacity slice, and in front of two different poison tails); oracle = strict reference decoder; an input is non-trivial when the reference classifies it invalid or it holds >=1 complete instruction; distinct = distinct (verdict, reason, instruction count, first opcode) classes",
-		Assumptions: []string{"NOOP, zero-length symbols and zero-width integers are not constrained (the statement does not mention them)", "the fuzzing clause of the quantifier is a different family and is not covered", "Vm.Run: silent accept is only asserted when every instruction before the bad one is straight-line (MOUT/MNEXT/MPREV/MSINK/LOAD/unmatched CROAK/CATCH)"},
+		Assumptions: []string{"NOOP (opcode 0), zero-length symbols and zero-width integers may be accepted or refused (the statement does not mention them) - but not with a panic", "the fuzzing clause of the quantifier is a different family and is not covered", "Vm.Run: silent accept is only asserted when every instruction before the bad one is straight-line (MOUT/MNEXT/MPREV/MSINK/LOAD/unmatched CROAK/CATCH)"},
 		Run:         c15Run,
 		Replay:      c15Replay,
 		MinItems:    1000,
@@ -82,6 +82,18 @@ func decodeFrame(stack string) bool {
 		if strings.Contains(stack, f) {
 			return true
 		}
+	}
+	// a panic raised by Vm.Run itself - the frame right under the runtime's panic frames - is a panic of
+	// the instruction dispatch (an opcode without executor), not of an executor working on state or cache
+	lines := strings.Split(stack, "\n")
+	last := -1
+	for i, l := range lines {
+		if strings.HasPrefix(l, "panic(") || strings.HasPrefix(l, "runtime.") {
+			last = i
+		}
+	}
+	if last >= 0 && last+2 < len(lines) && strings.Contains(lines[last+2], "vm.(*Vm).Run(") {
+		return true
 	}
 	return false
 }
